@@ -213,6 +213,11 @@ func kindsReachUpdate(out *scenOut) {
 		tea.EnableReportFocus(), tea.EnableReportFocus(), tea.DisableReportFocus(), tea.FocusMsg{}, tea.FocusMsg{},
 		userMsg{4, 2}, userMsg{4, 2},
 	}
+	// a message may be ANY value - also a function value (even of type Cmd): it is handed to Update as it
+	// is, never called
+	var fnCalled int32
+	msgs = append(msgs, tea.Cmd(func() tea.Msg { atomic.AddInt32(&fnCalled, 1); return userMsg{4, 90} }), userMsg{4, 5},
+		func() tea.Msg { atomic.AddInt32(&fnCalled, 1); return userMsg{4, 91} }, userMsg{4, 6})
 	run := startProgram(ctl, nil, tea.WithInput(nil), tea.WithoutSignalHandler())
 	var want []string
 	for _, m := range msgs {
@@ -233,6 +238,9 @@ func kindsReachUpdate(out *scenOut) {
 		if !strings.HasPrefix(u, "c:") && u != "nil" {
 			got = append(got, u)
 		}
+	}
+	if n := atomic.LoadInt32(&fnCalled); n != 0 {
+		out.fail(finding{Property: "C01", Class: "new", What: "a function value sent as a message was called by the library instead of being handed to Update", Input: desc, Expected: "0 calls", Observed: fmt.Sprint(n)})
 	}
 	if strings.Join(got, " , ") != strings.Join(want, " , ") {
 		out.fail(finding{Property: "C01", Class: "new", What: "a message whose Send completed did not reach Update exactly once and in order (library-defined message kinds included; only BatchMsg is expanded instead)", Input: desc,
@@ -825,6 +833,8 @@ func scenSeq(out *scenOut, r *rng, thorough bool) {
 		seqOnce(out, r.fork(), i)
 	}
 	seqReuse(out)
+	seqWhileLoopBusyLong(out, false)
+	seqWhileLoopBusyLong(out, true)
 	// a sequence element yielding a raw BatchMsg with a nil entry: run in a
 	// child process, because a failure kills the whole process
 	self, _ := os.Executable()
@@ -1903,5 +1913,82 @@ func sendsAcrossExec(out *scenOut, input string) {
 		}
 		out.fail(finding{Property: "C01", Class: "new", What: "messages whose Send completed while an Exec released / restored the terminal did not all reach Update exactly once and in order", Input: desc,
 			Expected: fmt.Sprintf("u3.0 … u3.%d", n-1), Observed: fmt.Sprintf("%d of %d received, %d missing; first received: %s", len(got), n, miss, strings.Join(got[:min(len(got), 12)], " "))})
+	}
+}
+
+// seqWhileLoopBusyLong: the event loop is busy for a long time (0.8 s inside Update for an
+// unrelated message) while an element of a sequence delivers its result: the next element must
+// not start before that message has been received, however long that takes.
+func seqWhileLoopBusyLong(out *scenOut, batch bool) {
+	ctl := newRecCtl()
+	gate := make(chan struct{})
+	var order []string
+	var mu sync.Mutex
+	note := func(s string) { mu.Lock(); order = append(order, s); mu.Unlock() }
+	started := make(chan struct{})
+	var startedOnce sync.Once
+	first := func() tea.Msg {
+		startedOnce.Do(func() { close(started) })
+		<-gate
+		note("first-returns")
+		return cmdMsg{"lf"}
+	}
+	b2 := func() tea.Msg { <-gate; return cmdMsg{"lb"} }
+	last := func() tea.Msg { note("last-starts"); return cmdMsg{"ll"} }
+	var x tea.Cmd = first
+	if batch {
+		x = tea.Batch(first, nil, b2)
+	}
+	hold := make(chan struct{})
+	ctl.onUpdate = func(m tea.Msg, v int) tea.Cmd {
+		switch msgName(m) {
+		case "u0.0":
+			return tea.Sequence(x, last)
+		case "u0.1":
+			<-hold // an unrelated, slow Update
+		case "c:lf":
+			note("first-received")
+		}
+		return nil
+	}
+	run := startProgram(ctl, nil, tea.WithInput(nil), tea.WithoutSignalHandler())
+	desc := fmt.Sprintf("Sequence(X, last), X batch=%t; the loop is inside an unrelated Update for 0.8 s while X delivers its result(s)", batch)
+	run.p.Send(userMsg{0, 0})
+	select { // the sequence is running: its first element has started
+	case <-started:
+	case <-time.After(2 * time.Second):
+	}
+	go run.p.Send(userMsg{0, 1})
+	waitFor(time.Second, func() bool { return ctl.log.has("update-enter", "u0.1") })
+	close(gate) // X's commands return now; their Sends park behind the busy loop
+	time.Sleep(800 * time.Millisecond)
+	mu.Lock()
+	early := false
+	for _, o := range order {
+		if o == "last-starts" {
+			early = true
+		}
+	}
+	mu.Unlock()
+	close(hold)
+	waitFor(3*time.Second, func() bool { return ctl.log.has("update-exit", "c:ll") })
+	run.p.Quit()
+	run.wait(4 * time.Second)
+	out.record(fmt.Sprintf("seq-loop-busy-long/%t", batch), desc)
+	if early {
+		out.fail(finding{Property: "C03", Class: "new", What: "sequence command started before the previous element's message was received (the event loop was busy for 0.8 s)", Input: desc,
+			Expected: "the last element starts after the loop has received X's message(s)", Observed: "it started while the loop was still inside the unrelated Update"})
+	}
+	ups := updatesOf(ctl.log.snapshot())
+	idx := func(n string) int {
+		for i, u := range ups {
+			if u == n {
+				return i
+			}
+		}
+		return -1
+	}
+	if idx("c:ll") >= 0 && idx("c:lf") > idx("c:ll") {
+		out.fail(finding{Property: "C03", Class: "new", What: "messages of a sequence reached Update out of order", Input: desc, Observed: strings.Join(ups, " ")})
 	}
 }
